@@ -17,6 +17,8 @@ func checkC03(p *Prog, r *Result, tier string) {
 	r.Rule("C03.R4", "a delete releases every field: the index delete visits every field index with the field-level delete and removes both membership entries, without early exit", 2)
 	r.Rule("C03.R5", "the canonical value is what is checked: on insertion entries the accepting insertion is called only after the case transforms (shared with C15/C16)", 2)
 	r.Rule("C03.R8", "an accepted replacement is not undone by un-indexing: on the insertion entries no path un-indexes an object after the accepting insertion of the live index returned (for an update the previous entries would be lost while the previous file stays; expected count 0: no roll-back by un-indexing exists)", 0)
+	r.Rule("C03.R9", "every unique field has a field index: the function that builds the object index from the descriptors reads the Unique flag (not only the Index flag) when it decides which fields get a field index; a unique field without one has nothing to be checked against (custom schemas can set Unique without Index)", 1)
+	checkIndexCtorConsultsUnique(p, r, "C03.R9")
 	r.Rule("C03.R7", "object ids are never reused at run time (shared with C20.R3)", 1)
 	r.NotDecided = []string{"that the equal range computed by bisection contains exactly the equal entries (C02, not decided)", "that the decoder restores the id counter past the maximum", "equality semantics of values"}
 	c := computeClosures(p)
@@ -256,4 +258,69 @@ func checkSatisfyTable(p *Prog, r *Result, rule string) {
 		r.Report(rule, FuncName(fn), "decision table", Violated, "the constraint check differs from the specification (re-save rejected, or a duplicate accepted) at: "+strings.Join(bad, "; "), p.Pos(fn.Pos()), nil, true)
 	}
 	r.Extra["satisfy_cells"] = cells
+}
+
+// checkIndexCtorConsultsUnique: the constructor of the object index (the function that fills objIndex.Fields from a
+// descriptor map with fresh field indexes) reads Constraints.Unique, itself or through a helper.
+func checkIndexCtorConsultsUnique(p *Prog, r *Result, rule string) {
+	a := p.A
+	cons := named(a.FIConstraints.Type())
+	var uniq *types.Var
+	if st := structOf(cons); st != nil {
+		for i := 0; i < st.NumFields(); i++ {
+			if st.Field(i).Name() == "Unique" {
+				uniq = st.Field(i)
+			}
+		}
+	}
+	if uniq == nil {
+		r.Report(rule, "-", "Unique constraint", Undecided, "constraint flag Unique not found", "", nil, false)
+		return
+	}
+	n := 0
+	for _, fn := range p.Funcs {
+		if !inSod(p, fn) || fn.Parent() != nil || fn.Signature.Results().Len() != 1 || named(fn.Signature.Results().At(0).Type()) != a.ObjIndex {
+			continue
+		}
+		// fills the Fields map of a fresh object index inside a loop over descriptors
+		fills := false
+		for _, b := range fn.Blocks {
+			for _, in := range b.Instrs {
+				if mu, ok := in.(*ssa.MapUpdate); ok {
+					if _, f, _ := loadedField(mu.Map); f == a.OIFields {
+						fills = true
+					}
+				}
+			}
+		}
+		if !fills {
+			continue
+		}
+		n++
+		reads := false
+		for _, g := range calleesWithin(p, fn, 1) {
+			for _, b := range g.Blocks {
+				for _, in := range b.Instrs {
+					switch v := in.(type) {
+					case *ssa.FieldAddr:
+						if _, f, _ := fieldOf(v); f == uniq {
+							reads = true
+						}
+					case *ssa.Field:
+						if _, f, _ := fieldOf(v); f == uniq {
+							reads = true
+						}
+					}
+				}
+			}
+		}
+		if reads {
+			r.Report(rule, FuncName(fn), "field indexes are built for unique fields too", Discharged, "", p.Pos(fn.Pos()), nil, true)
+		} else {
+			r.Report(rule, FuncName(fn), "field indexes are built for unique fields too", Violated, "the constructor of the object index does not look at the Unique constraint: a field declared unique without the index flag (custom schema) gets no field index and duplicates are accepted silently", p.Pos(fn.Pos()), nil, true)
+		}
+	}
+	if n == 0 {
+		r.Report(rule, "-", "constructor of the object index", Undecided, "no function fills the field-index map of a new object index", "", nil, false)
+	}
 }
